@@ -105,7 +105,7 @@ def contains_ok(ti: int, t1: str, t2: str, own: bool, two: bool) -> bool:
 
 ALPHA = 'ab \n'
 
-SEARCH = ['a', 'b', 'ab', 'ba', '', ' ', 'a b', 'aa', 'b\n', 'q"r', "it's", 'x,y', '\\', 'é']
+SEARCH = ['a', 'b', 'ab', 'ba', '', ' ', 'a b', 'aa', 'b\n', 'q"r', "it's", 'x,y', '\\', 'é', 'a"', '"a"', "b'", '"', 'a\\']
 FORMS = [(':-soup-contains(%s)', False), (':-soup-contains-own(%s)', True), (':contains(%s)', False),
          ('p:-soup-contains(%s)', False), (':not(:-soup-contains(%s))', None), (':-soup-contains(%s, "zz")', False),
          (':-soup-contains-own("zz", %s)', True), (':-soup-contains-own(%s):-soup-contains(%s)', 'both'),
